@@ -95,29 +95,64 @@ def main(argv=None):
     results = []
     task_of = {}
     task_times = {}
-    if args.jobs <= 1 or len(tasks) == 1:
-        for t in tasks:
-            _t = time.time()
-            rs = t.run()
-            task_times[t.label] = round(time.time() - _t, 2)
-            for r in rs:
-                task_of[r.name] = t.label
-            results += rs
-    else:
-        with ProcessPoolExecutor(max_workers=min(args.jobs, len(tasks))) as ex:
-            futs = {ex.submit(oblig.run_task, t): t for t in tasks}
+    by_task = {}
+
+    def run_round(todo, jobs, note=''):
+        """one pool over `todo`; a worker that dies (z3 can segfault) breaks the pool: whatever did not finish is returned for another round"""
+        from concurrent.futures.process import BrokenProcessPool
+        unfinished = []
+        if jobs <= 1 or len(todo) == 1 and not note:
+            for t in todo:
+                _t = time.time()
+                by_task[t.label] = t.run()
+                task_times[t.label] = round(time.time() - _t, 2)
+            return unfinished
+        with ProcessPoolExecutor(max_workers=min(jobs, len(todo))) as ex:
+            futs = {ex.submit(oblig.run_task, t): t for t in todo}
             for f in as_completed(futs):
                 t = futs[f]
                 try:
                     rs, dt = f.result()
-                    task_times[t.label] = round(dt, 2)
+                    by_task[t.label] = rs
+                    task_times[t.label] = round(task_times.get(t.label, 0) + dt, 2)
                     if args.v:
-                        print(f'  done {t.label} {dt:.1f}s ({len(task_times)}/{len(tasks)})', file=sys.stderr, flush=True)
-                except Exception as e:  # worker died
-                    rs = [oblig.Result(f'{t.label}/worker-died', ERROR, 'driver', 0.0, tuple(t.props), {'message': repr(e)})]
-                for r in rs:
-                    task_of[r.name] = t.label
-                results += rs
+                        print(f'  done {t.label} {dt:.1f}s ({len(by_task)}/{len(tasks)}){note}', file=sys.stderr, flush=True)
+                except BrokenProcessPool:
+                    unfinished.append(t)
+                except Exception as e:
+                    by_task[t.label] = [oblig.Result(f'{t.label}/worker-died', ERROR, 'driver', 0.0, tuple(t.props), {'message': repr(e)})]
+        return unfinished
+
+    todo = list(tasks)
+    for rnd in range(3):
+        todo = run_round(todo, args.jobs, '' if rnd == 0 else f' [round {rnd + 1} after a worker died]')
+        if not todo:
+            break
+        print(f'  a worker process died; {len(todo)} task(s) are run again', file=sys.stderr, flush=True)
+    for t in todo:
+        # still unfinished after three rounds: one pool per task isolates the one that kills its worker
+        left = run_round([t], 2, ' [isolated]')
+        if left:
+            by_task[t.label] = [oblig.Result(f'{t.label}/worker-died', ERROR, 'driver', 0.0, tuple(t.props),
+                                             {'message': 'the worker process running this task died three times (solver crash)'})]
+    # obligations a solver left undecided (timeouts are load dependent): those tasks are run once more with three times the solver budget
+    retry = [t for t in tasks if any(r.status == UNDECIDED and 'outside the interpretable subset' not in str(r.detail.get('message', '')) for r in by_task.get(t.label, []))]
+    if retry and not os.environ.get('HIDV_NO_RETRY'):
+        old_budget = os.environ.get('HIDV_Z3_TIMEOUT_MS'), os.environ.get('HIDV_CVC5_TIMEOUT_S')
+        os.environ['HIDV_Z3_TIMEOUT_MS'] = str(3 * int(old_budget[0] or 20000)); os.environ['HIDV_CVC5_TIMEOUT_S'] = str(3 * int(old_budget[1] or 30))
+        if args.v:
+            print(f'  {len(retry)} task(s) with undecided obligations are run again with a larger solver budget', file=sys.stderr, flush=True)
+        before = {t.label: by_task[t.label] for t in retry}
+        left = run_round(retry, max(2, args.jobs // 2), ' [retry]')
+        for t in left:
+            by_task[t.label] = before[t.label]
+        for k, v in zip(('HIDV_Z3_TIMEOUT_MS', 'HIDV_CVC5_TIMEOUT_S'), old_budget):
+            if v is None: os.environ.pop(k, None)
+            else: os.environ[k] = v
+    for t in tasks:
+        for r in by_task.get(t.label, []):
+            task_of[r.name] = t.label
+            results.append(r)
     # restrict to obligations that serve this property
     if prop != 'ALL':
         results = [r for r in results if prop in r.props]
